@@ -264,14 +264,23 @@ def _fit_level(ctx, N):
                     ok_n = bool(ints) and all(N.nf(x) == N.nf(refn.term) for x in ints)
                     ctx.ob("R-BUFFERS", f"{cfg}: buffer extent is int(n_candidates * fraction)", ok_n and tq.has_sym(inits[0]["value"].term, "frac") and tq.has_size(inits[0]["value"].term, S), f"extent term {t[:200]} ; expected {refn.term!r}", site, cfg)
             # R-TRUNC: the early return inside the greedy loop
-            rets = [e for e in I.events[lo:] if e["kind"] == "return" and e.get("short") == "GreedySelector.fit" and e.get("loop_depth", 0) > 0]
-            if not ctx.ob("R-TRUNC", f"{cfg}: threshold exit found inside the greedy loop", len(rets) == 1, f"{len(rets)} early returns", site, cfg):
+            # the threshold exit of the greedy loop: an early `return self` or a `break` (the state at that
+            # point is what the truncation obligations are about)
+            rets = [e for e in I.events[lo:] if e["kind"] in ("return", "break") and e.get("short") == "GreedySelector.fit" and e.get("loop_depth", 0) > 0 and not e.get("probing")]
+            if not ctx.ob("R-TRUNC", f"{cfg}: threshold exit found inside the greedy loop", len(rets) == 1, f"{len(rets)} early exits", site, cfg):
                 continue
             snap = rets[0]["state"]
             heap = snap.heap[o.obj.id]
             nsel = heap["n_selected_"]
-            r = rets[0]["value"]
-            ctx.ob("R-SELF", f"{cfg}: threshold exit returns self", r.kind == "obj" and r.obj is o.obj, f"returns {r!r}", site, cfg, nontrivial=False)
+            if rets[0]["kind"] == "return":
+                r = rets[0]["value"]
+                ctx.ob("R-SELF", f"{cfg}: threshold exit returns self", r.kind == "obj" and r.obj is o.obj, f"returns {r!r}", site, cfg, nontrivial=False)
+            else:
+                # the shared tail after the loop rebuilds the support mask: look at it in the final state
+                heap = dict(heap)
+                fin = st.heap[o.obj.id]
+                heap["support_"] = fin.get("support_")
+                heap["__final_selected_idx__"] = fin.get("selected_idx_")
             bufs = ["selected_idx_", "X_selected_"] + (["y_selected_"] if "y_selected_" in heap and heap["y_selected_"].kind not in ("undef",) else [])
             for b in bufs:
                 v = heap[b]
@@ -284,7 +293,7 @@ def _fit_level(ctx, N):
                     cut_axis = _trunc_axis(v.term)
                     ctx.ob("R-TRUNC", f"X_selected_ is cut along the selection axis on a threshold stop [{cfg}]", cut_axis == axis, f"cut along axis {cut_axis}, selection axis {axis}", f"{rets[0]['func']}:{rets[0]['line']}", cfg)
             sup = heap.get("support_")
-            sel = heap["selected_idx_"]
+            sel = heap.get("__final_selected_idx__") or heap["selected_idx_"]
             ok = sup is not None and sup.kind != "undef" and sup.term.op == "store" and N.nf(sup.term.args[1]) == N.nf(sel.term)
             ctx.ob("R-TRUNC", f"{cfg}: support mask rebuilt from the truncated index list", ok, f"support_ = {None if sup is None else repr(sup.term)[:200]}", site, cfg)
 
